@@ -1288,8 +1288,15 @@ class Node:
             self.acct_application_ids & cer_acct_apps)
         conn.host_identity = message.origin_host.decode()
 
-        self._assign_peer_connection(conn)
-        self._flag_connection_as_ready(conn)
+        with self._busy_lock:
+            if conn.ident not in self.connections:
+                # removed by the connection thread in the meantime, e.g. the
+                # CEA arrived just as the CEA timeout was acted upon
+                self.logger.warning(
+                    f"{conn} has been closed while its CEA was being handled")
+                return
+            self._assign_peer_connection(conn)
+            self._flag_connection_as_ready(conn)
         self.logger.info(
             f"{conn} is now ready, determined supported auth applications: "
             f"{conn.auth_application_ids}, supported acct applications: "
@@ -1372,8 +1379,15 @@ class Node:
         conn.host_identity = cer_origin_host
         conn.host_ip_address = [i[1] for i in message.host_ip_address]
 
-        self._assign_peer_connection(conn)
-        self._flag_connection_as_ready(conn)
+        with self._busy_lock:
+            if conn.ident not in self.connections:
+                # removed by the connection thread in the meantime, e.g. the
+                # CER arrived just as the CER timeout was acted upon
+                self.logger.warning(
+                    f"{conn} has been closed while its CER was being handled")
+                return
+            self._assign_peer_connection(conn)
+            self._flag_connection_as_ready(conn)
         self.logger.info(
             f"{conn} is now ready, determined supported auth applications: "
             f"{supported_auth_apps}, supported acct applications: "
@@ -1434,6 +1448,13 @@ class Node:
                 one of the `PEER_DISCONNECT_REASON_*` constant values.
 
         """
+        # under the node lock, as a CER or CEA for this very connection may be
+        # in the middle of being handled by the connection's own thread
+        with self._busy_lock:
+            self._remove_peer_connection(conn, disconnect_reason)
+
+    def _remove_peer_connection(self, conn: PeerConnection,
+                                disconnect_reason: int):
         if conn.ident in self.connections:
             del self.connections[conn.ident]
         if conn.ident in self.peer_sockets:
